@@ -524,7 +524,38 @@ def avg(index, rep):
                   f"the helper returns {r}", loc=loc(IU, fn))
     asserts = [norm_src(a.test) for a in walk_no_nested(fn) if isinstance(a, ast.Assert)]
     wparam = [a.arg for a in fn.args.args if a.arg not in ("self", "cls")][1]
-    rep.check(any(re.fullmatch(r"0 <= (\w+) <= 1", a) for a in asserts) and any(a.startswith(f"sum({wparam}) <= 1.00001") for a in asserts), rule,
+    from .core import Inliner
+    inl = Inliner(fn)
+    atoms_ = []  # (lhs text, op, rhs text) of every comparison asserted (chains and `and` expanded, locals substituted)
+
+    def collect(t):
+        if isinstance(t, ast.BoolOp) and isinstance(t.op, ast.And):
+            for v in t.values:
+                collect(v)
+        elif isinstance(t, ast.Compare):
+            left = t.left
+            for op, right in zip(t.ops, t.comparators):
+                atoms_.append((inl.src(left), type(op).__name__, inl.src(right)))
+                left = right
+
+    for a in walk_no_nested(fn):
+        if isinstance(a, ast.Assert):
+            collect(a.test)
+
+    def num(x):
+        try:
+            return float(x)
+        except ValueError:
+            return None
+
+    sw = f"sum({wparam})"
+    upper = any((l == sw and op in ("LtE", "Lt") and num(r) is not None and 1 <= num(r) <= 1.001) or
+                (r == sw and op in ("GtE", "Gt") and num(l) is not None and 1 <= num(l) <= 1.001) for l, op, r in atoms_)
+    lower = any((l == sw and op in ("GtE", "Gt") and num(r) is not None and 0.999 <= num(r) <= 1) or
+                (r == sw and op in ("LtE", "Lt") and num(l) is not None and 0.999 <= num(l) <= 1) for l, op, r in atoms_)
+    each = any(l == "0" and op == "LtE" and re.fullmatch(rf"\w+|{wparam}\[\w+\]", r) for l, op, r in atoms_) and \
+        any(r == "1" and op == "LtE" and re.fullmatch(rf"\w+|{wparam}\[\w+\]", l) for l, op, r in atoms_)
+    rep.check(upper and lower and each, rule,
               "weights-asserted",
               "weights are no longer asserted to lie in [0,1] and to sum to 1 (needed for the mean to stay within the valid range)",
               loc=loc(IU, fn))
